@@ -187,7 +187,8 @@ def lens_task(task):
         if tag == "seed":
             asph = idx % 3 == 2       # two lenses in three are purely spherical (Coddington's clause applies)
             opts = dict(kinds=KINDS if asph else ("standard",), mirrors=(idx % 4 == 0), apertures=(idx % 2 == 0),
-                        tilts=False, catalogue=(idx % 5 == 1), conics=asph, coatings=(idx % 4 == 2))
+                        tilts=False, catalogue=(idx % 5 == 1), conics=asph, coatings=(idx % 4 == 2),
+                        curved_image=(idx % 3 == 1))
             optic, meta = G.random_lens(rnd, **opts)
             name = "seed %d %s" % (arg, {k: meta[k] for k in ("nsurf", "finite_object", "field_type", "mirror")})
         else:
